@@ -25,6 +25,9 @@ use std::{cell::Cell, rc::Rc};
 pub struct NS(pub Rc<u32>);
 /// Send but not Sync
 pub struct NSY(pub Cell<u32>);
+/// Sync but not Send (like a lock guard)
+pub struct SNS(pub u32, pub std::marker::PhantomData<std::sync::MutexGuard<'static, ()>>);
+pub type RegSNS = Registry!(A, SNS);
 pub struct R1(pub u32);
 pub struct R2(pub u32);
 /// not in the resource list
@@ -390,6 +393,45 @@ thread_pair("share_entries_rc", f'''
     let r = w.query(Query::<Views!(&A), filter::None, Views!(), Views!(&mut B)>::new());
     let entries = &r.entries;
     std::thread::scope(|s| {{ s.spawn(move || {{ let _e = entries; }}); }});''', "&Entries with &mut Rc entry views shared with another thread")
+thread_pair("send_world_guardlike", f'''
+    {nsw("RegSNS", "A(1), SNS(1, std::marker::PhantomData)")}
+    std::thread::spawn(move || {{ let _ = w.len(); }}).join().unwrap();''', f'''
+    {nsw("Reg", "A(1), B(1)")}
+    std::thread::spawn(move || {{ let _ = w.len(); }}).join().unwrap();''', "World holding Sync-but-not-Send components moved to another thread")
+thread_pair("send_iter_guardlike_mut", f'''
+    {nsw("RegSNS", "A(1), SNS(1, std::marker::PhantomData)")}
+    let r = w.query(Query::<Views!(&mut SNS)>::new());
+    let iter = r.iter;
+    std::thread::scope(|s| {{ s.spawn(move || {{ for result!(x) in iter {{ x.0 += 1; }} }}); }});''', f'''
+    {nsw("Reg", "A(1), B(1)")}
+    let r = w.query(Query::<Views!(&mut B)>::new());
+    let iter = r.iter;
+    std::thread::scope(|s| {{ s.spawn(move || {{ for result!(x) in iter {{ x.0 += 1; }} }}); }});''', "query iterator over &mut (Sync, !Send) components moved to another thread")
+thread_pair("send_entries_guardlike_mut", f'''
+    {nsw("RegSNS", "A(1), SNS(1, std::marker::PhantomData)")}
+    let r = w.query(Query::<Views!(&A), filter::None, Views!(), Views!(&mut SNS)>::new());
+    let entries = r.entries;
+    std::thread::scope(|s| {{ s.spawn(move || {{ let _e = entries; }}); }});''', f'''
+    {nsw("Reg", "A(1), B(1)")}
+    let r = w.query(Query::<Views!(&A), filter::None, Views!(), Views!(&mut B)>::new());
+    let entries = r.entries;
+    std::thread::scope(|s| {{ s.spawn(move || {{ let _e = entries; }}); }});''', "Entries handle with &mut (Sync, !Send) entry views moved to another thread")
+thread_pair("send_entries_guardlike_optmut", f'''
+    {nsw("RegSNS", "A(1), SNS(1, std::marker::PhantomData)")}
+    let r = w.query(Query::<Views!(&A), filter::None, Views!(), Views!(Option<&mut SNS>)>::new());
+    let entries = r.entries;
+    std::thread::scope(|s| {{ s.spawn(move || {{ let _e = entries; }}); }});''', f'''
+    {nsw("Reg", "A(1), B(1)")}
+    let r = w.query(Query::<Views!(&A), filter::None, Views!(), Views!(Option<&mut B>)>::new());
+    let entries = r.entries;
+    std::thread::scope(|s| {{ s.spawn(move || {{ let _e = entries; }}); }});''', "Entries handle with Option<&mut (Sync, !Send)> entry views moved to another thread")
+thread_pair("par_query_guardlike_mut", f'''
+    use rayon::iter::ParallelIterator;
+    {nsw("RegSNS", "A(1), SNS(1, std::marker::PhantomData)")}
+    w.par_query(Query::<Views!(&mut SNS)>::new()).iter.for_each(|result!(x)| {{ x.0 += 1; }});''', f'''
+    use rayon::iter::ParallelIterator;
+    {nsw("Reg", "A(1), B(1)")}
+    w.par_query(Query::<Views!(&mut B)>::new()).iter.for_each(|result!(x)| {{ x.0 += 1; }});''', "par_query viewing &mut (Sync, !Send) components")
 thread_pair("par_query_cell_ref", f'''
     use rayon::iter::ParallelIterator;
     {nsw("RegNSY", "A(1), NSY(Cell::new(1))")}
